@@ -1,5 +1,6 @@
 import KoordVerif.Common.Proto
 import KoordVerif.Model.C08
+import KoordVerif.Model.C08Glue
 /-
 Driver for C08.  One case = one history.  Lines (all tokens integers, d = 2: cpu, memory):
   cfg <f0> <f1> <allowCustom> <secSched> <secInit> <prodIncSys> <nNodes>          (first line)
@@ -15,6 +16,14 @@ pod19 = uid key cls prioVar term rsv specNode schedK schedT initK initT cf0 cf1 
         (condK: 0 none, 1 False, 2 True, 3 False zero-time, 4 True zero-time; -1 = absent for cf/thresholds/raw)
 After every state-changing op: one line `st <node> nf | st <node> p0 p1 n0 n1 e0 e1` per node 1..nNodes
 (prod estimate, whole-node estimate, sum of full estimates).  get -> `get nf | get v0 v1`; filter -> `filter <verdict>`.
+  cbegin … cend : the events in between ran concurrently (pod events on one goroutine, NodeMetric events on another);
+         they are replayed in the listed order without observations, `cend` emits the `st` lines of the barrier.
+  shape <prioLabel> <hasPrio> <prio> <qosLabel> <kubeQos> <specId> <fKind> <f0> <f1> <sKind> <sVal> <iKind> <iVal> <nC> <nI>
+        (r0 l0 r1 l1)*nC (always r0 l0 r1 l1)*nI <ov0> <ov1> <plr0> <pll0> <plr1> <pll1>
+        the raw shape of the pod of the NEXT pod-carrying line (rsv/add/upd/filter): the glue model derives class,
+        custom factors / seconds and (request, limit) from it -> `shape cls cf0 cf1 cSched cInit req0 lim0 req1 lim1`,
+        and these replace the corresponding pod19 tokens of that next line.
+  race <k> : k barrier-released (add-type || delete-type) pairs on a separate node -> `race <lostPods> <lostReports>`
 -/
 namespace KoordVerif.C08
 open KoordVerif.Proto
@@ -97,10 +106,48 @@ def parseFilter : List Int → Option FilterQ
     | _, _, _ => none
   | _ => none
 
+def parseCont : Nat → List Int → Option (List (List (Int × Int)) × List Int)
+  | 0, rest => some ([], rest)
+  | n+1, r0 :: l0 :: r1 :: l1 :: rest =>
+    match parseCont n rest with
+    | some (cs, r) => some ([(r0, l0), (r1, l1)] :: cs, r)
+    | none => none
+  | _, _ => none
+
+def parseInits : Nat → List Int → Option (List (Bool × List (Int × Int)) × List Int)
+  | 0, rest => some ([], rest)
+  | n+1, al :: r0 :: l0 :: r1 :: l1 :: rest =>
+    match parseInits n rest with
+    | some (cs, r) => some ((al != 0, [(r0, l0), (r1, l1)]) :: cs, r)
+    | none => none
+  | _, _ => none
+
+def parseShape : List Int → Option PodShape
+  | pl :: hp :: pr :: ql :: kq :: sid :: fk :: f0 :: f1 :: sk :: sv :: ik :: iv :: nC :: nI :: rest =>
+    if pl < 0 || ql < 0 || kq < 0 || sid < 0 || fk < 0 || sk < 0 || ik < 0 || nC < 0 || nI < 0 then none else
+    match parseCont nC.toNat rest with
+    | none => none
+    | some (cs, rest) =>
+      match parseInits nI.toNat rest with
+      | some (is, [ov0, ov1, plr0, pll0, plr1, pll1]) =>
+        some { cls := { prioLabel := pl.toNat, prio := if hp != 0 then some pr else none, qosLabel := ql.toNat, kubeQos := kq.toNat },
+               specId := sid.toNat, fKind := fk.toNat, fs := [optNonneg f0, optNonneg f1], sKind := sk.toNat, sVal := sv,
+               iKind := ik.toNat, iVal := iv, containers := cs, inits := is, overhead := [ov0, ov1],
+               podLevel := [(optNonneg plr0, optNonneg pll0), (optNonneg plr1, optNonneg pll1)] }
+      | _ => none
+  | _ => none
+
+def showShape (p : PodDesc) : String :=
+  let f (i : Nat) : Int := (p.customFactors.getD i none).getD (-1)
+  let r (i : Nat) : Int × Int := p.res.getD i (0, 0)
+  s!"shape {p.cls} {f 0} {f 1} {p.customSched} {p.customInit} {(r 0).1} {(r 0).2} {(r 1).1} {(r 1).2}"
+
 structure St where
   cfg : Option Cfg
   nNodes : Nat
   cache : Cache
+  pending : Option PodShape := none   -- raw shape announced for the next pod-carrying line
+  quiet : Bool := false     -- between `cbegin` and `cend`: a concurrent segment, observed once at its barrier
 
 def showVec (v : Vec) : String := showInts v
 
@@ -134,7 +181,23 @@ def stepLine (st : St) (line : String) : St × List String :=
           ({ cfg := some cfg, nNodes := nn.toNat, cache := [] }, [])
         | _ => (st, ["bad-op"])
       | _, none => (st, ["bad-op"])
+      | "shape", some cfg =>
+        match parseShape xs with
+        | some sh =>
+          let blank : PodDesc := { uid := 0, key := 0, cls := 0, prioVariant := 0, term := false, rsv := false, specNode := 0,
+                                   sched := none, init := none, customFactors := [], customSched := -1, customInit := -1, res := [] }
+          ({ st with pending := some sh }, [showShape (sh.apply cfg.d blank)])
+        | none => (st, ["bad-op"])
       | k, some cfg =>
+        let parsePod (toks : List Int) : Option PodDesc :=
+          (parsePod toks).map fun p => match st.pending with
+            | some sh => sh.apply cfg.d p
+            | none => p
+        let parseFilter (toks : List Int) : Option FilterQ :=
+          (parseFilter toks).map fun q => match st.pending with
+            | some sh => { q with pod := sh.apply cfg.d q.pod }
+            | none => q
+        let st := { st with pending := none }
         let ev : Option Ev :=
           match k, xs with
           | "rsv", node :: now :: pod => if node < 0 then none else (parsePod pod).map (Ev.reserve node.toNat · now)
@@ -148,9 +211,14 @@ def stepLine (st : St) (line : String) : St × List String :=
         match ev with
         | some e =>
           let c := step cfg st.cache e
-          ({ st with cache := c }, obsNodes cfg st.nNodes c)
+          ({ st with cache := c }, if st.quiet then [] else obsNodes cfg st.nNodes c)
         | none =>
           match k, xs with
+          | "cbegin", [] => ({ st with quiet := true }, [])
+          | "cend", [] => ({ st with quiet := false }, obsNodes cfg st.nNodes st.cache)
+          -- k racing pairs on a node of their own; every pair ends with the entry cleaned up again, and by
+          -- Conc.no_event_lost no interleaving loses the added object: the cache is unchanged, nothing is lost
+          | "race", [_] => (st, ["race 0 0"])
           | "get", [node, prod, typ, dur] =>
             if node < 0 || typ < 0 || dur < 0 then (st, ["bad-op"]) else
             match estimatedOfExisting cfg (st.cache.get node.toNat) (prod != 0) typ.toNat dur.toNat with
